@@ -86,6 +86,28 @@ def replay_state(args):
                             bad.append(("C08.objective", w, float(np.var(e)), float(np.var(x)), r))
                     elif np.max(np.abs(x - e)) > TOLX + slack:
                         bad.append(("C08.objective", w, e.tolist(), x.tolist(), r))
+    # several targets in ONE call that differ by a few 1e-6 (a slow ramp): every row must reproduce its OWN target
+    # within the tight tolerance (strictly in-gamut targets moved towards the centre of the gamut stay in gamut)
+    centre = Kmat @ (A @ ((lb + ub) / 2) + blv)
+    recs1 = [r for r in sorted(st["recs"], key=lambda r: (r["b"], r["v"])) if r["v"] == 6][:4]
+    for r in recs1:
+        b = dsys.b_float(s, r["b"])
+        dirn = centre - b
+        if np.linalg.norm(dirn) < 1e-9:
+            continue
+        dirn = dirn / np.linalg.norm(dirn)
+        Bramp = np.array([b + k * 2.5e-6 * dirn for k in range(4)])
+        for name, opt in (("l2", "l2"), ("number", float(r["v"] / D))):
+            w = dict(opt=name, l2_eps=1e-6, solver="CLARABEL", ramp=True, **where0)
+            try:
+                X, Bp = est.fit_underdetermined(Bramp.copy(), underdetermined_opt=opt, l2_eps=1e-6, solver="CLARABEL")
+                ncalls += 1
+                pred = (np.asarray(X, float) @ A.T + blv) @ Kmat.T
+                err = np.linalg.norm(pred - Bramp, axis=1)
+                if np.any(err > 1e-6 * 1.05 + 1e-7):
+                    bad.append(("C08.reproduces-target", w, Bramp.tolist(), pred.tolist(), r))
+            except Exception as ex:
+                bad.append(("C08.no-error", dict(exc=type(ex).__name__, **w), None, repr(ex)[:200], r))
     return bad, ncalls
 
 
